@@ -246,6 +246,8 @@ func c19Build(seed uint64, cell c19Cell) *c19Case {
 			detail = strings.TrimSuffix(detail, "+refs")
 		}
 		owner := "cfl-owner"
+		twin := strings.HasSuffix(detail, "+twin")
+		detail = strings.TrimSuffix(detail, "+twin")
 		if strings.HasSuffix(detail, "+hash") {
 			// the way pods of a Deployment look in a dump of a live cluster: the ReplicaSet is named after the
 			// template hash and every pod carries it as a label
@@ -269,6 +271,12 @@ func c19Build(seed uint64, cell c19Cell) *c19Case {
 			bad["extra"] = "x"
 		}
 		injected = podDoc("alpha", "cfl-pod-x", bad, nil, owner, okind, r.chance(1, 2))
+		if twin {
+			// a controller of another kind carries the same name in the same namespace; its own pods agree with each other
+			for k, n := 0, r.between(1, 3); k < n; k++ {
+				others = append(others, podDoc("alpha", fmt.Sprintf("cfl-twin-%d", k), map[string]string{"app": "z", "role": "db"}, nil, owner, "StatefulSet", r.chance(1, 2)))
+			}
+		}
 		c.tokens = []string{"cfl-owner"}
 		others = append(others, anps...)
 		others = append(others, nps...)
@@ -304,7 +312,9 @@ func c19Build(seed uint64, cell c19Cell) *c19Case {
 	for k, d := range all {
 		if d.Text == injected.Text && d.Name == injected.Name {
 			c.keepIdx = append(c.keepIdx, k)
-		} else {
+		} else if !strings.HasPrefix(d.Name, "cfl-twin-") {
+			// (the pods of a same-named controller of another kind stay out of the control: this tree matches owners by
+			// name alone and takes them for a conflict of their own, which the cell's verdict does not depend on)
 			c.ctl = append(c.ctl, d)
 		}
 	}
@@ -523,7 +533,7 @@ func c19Cells(tier string, seed uint64) (cells []c19Cell, exhaustiveUpTo int) {
 		add(c19Cell{kind: "banpName", n: 0, i: 0, j: -1, order: fmt.Sprint("v", k)})
 	}
 	for n := 1; n <= 5; n++ {
-		for _, d := range []string{"value", "missing", "extra", "value+refs", "extra+refs", "value+hash", "extra+hash", "missing+hash+refs"} {
+		for _, d := range []string{"value", "missing", "extra", "value+refs", "extra+refs", "value+hash", "extra+hash", "missing+hash+refs", "value+twin", "missing+twin"} {
 			for j := 0; j <= n; j++ {
 				add(c19Cell{kind: "podLabels", n: n, i: j, j: -1, order: "sorted", detail: d})
 			}
